@@ -12,6 +12,16 @@ def parseOp : P Op := do
   | "get" => do let i ← int; pure (Op.getitem i)
   | _ => P.fail
 
+def parseOp2 : P (Op2 Nat) := do
+  let t ← tok
+  match t with
+  | "iter" => pure (Op2.op Op.iter)
+  | "next" => do let h ← nat; pure (Op2.op (Op.next h))
+  | "len" => pure (Op2.op Op.len)
+  | "get" => do let i ← int; pure (Op2.op (Op.getitem i))
+  | "set" => do let i ← int; let a ← nat; pure (Op2.set i a)
+  | _ => P.fail
+
 def fmtOut : Out Nat → String
   | .handle h => "h" ++ toString h
   | .item a => "p" ++ toString a
@@ -26,6 +36,10 @@ def handle (ts : List String) : String :=
   | "run" :: rest =>
     match Wire.run (do let n ← nat; let ops ← list parseOp; pure (n, ops)) rest with
     | some (n, ops) => fmtList fmtOut (Model.IterProto.run (List.range n) {} ops).2
+    | none => "bad-request"
+  | "run2" :: rest =>
+    match Wire.run (do let n ← nat; let ops ← list parseOp2; pure (n, ops)) rest with
+    | some (n, ops) => fmtList fmtOut (run2 (List.range n, {}) ops).2
     | none => "bad-request"
   | "srun" :: rest =>
     match Wire.run (do let n ← nat; let ops ← list parseOp; pure (n, ops)) rest with
